@@ -227,7 +227,7 @@ impl Property for C12 {
         ]
     }
     fn pbt(&self, tier: Tier) -> PbtCfg {
-        PbtCfg { cases: tier.pick(400_000, 15_000_000), max_len: tier.pick(500, 1600), shrink_ms: 120_000 }
+        PbtCfg { cases: tier.pick(400_000, 8_000_000), max_len: tier.pick(500, 1600), shrink_ms: 120_000 }
     }
     fn required_labels(&self) -> Vec<&'static str> {
         vec!["cause:server", "cause:client", "cause:transport", "cause:packet", "cause:budget", "after:packet", "after:setter", "after:recv_buffered", "after:flush", "local_after_server_disconnect", "remove_disconnected", "remove_healthy"]
